@@ -21,6 +21,7 @@ import (
 	"time"
 
 	"github.com/go-logr/logr"
+	"github.com/go-logr/logr/funcr"
 
 	"go.minekube.com/gate/pkg/edition/java/netmc"
 	"go.minekube.com/gate/pkg/edition/java/proto/state"
@@ -105,6 +106,17 @@ func (c *chunkConn) Read(p []byte) (int, error) {
 type step struct {
 	Size    int    `json:"size"`
 	Content string `json:"content"` // rep | lcg
+	// Via overrides the case's writer entry point for this payload:
+	//   write        Writer.Write(payload)
+	//   packet       Writer.WritePacket(&blobPacket)   (id 0x55, decodes its whole data)
+	//   lazy         Writer.WritePacket(&lazyPacket)   (id 0x56; its Decode leaves bytes unread, so the reader
+	//                takes the ErrDecoderLeftBytes path - the payload must come back all the same)
+	//   fail-error   Writer.WritePacket of a registered packet whose Encode writes half its data and returns an error
+	//   fail-panic   ... whose Encode writes half its data and panics (with a non-error value)
+	//   unregistered Writer.WritePacket of a packet type the registry does not know
+	// The last three write nothing that counts as "written": the calls fail, and the payloads around them must
+	// come back exactly (nothing of the failed packet may reach the wire or stay behind in a pooled buffer).
+	Via string `json:"via,omitempty"`
 	// applied (to writer and reader alike) BEFORE this payload is written / read:
 	SetThreshold *int   `json:"set_threshold,omitempty"`
 	Encrypt      string `json:"encrypt,omitempty"` // hex secret
@@ -121,7 +133,10 @@ type caseSpec struct {
 	FlushAtEnd bool `json:"flush_at_end,omitempty"`
 	// Via: "" = Writer.Write(payload); "packet" = Writer.WritePacket(&blobPacket{...}) (registered as id 0x55;
 	// goes through the packet registry and the pooled encode buffers), payload = 0x55 + data
-	Via      string `json:"via,omitempty"`
+	Via string `json:"via,omitempty"`
+	// Log: writer and reader get an enabled logger (verbosity 10) instead of logr.Discard(), which switches on
+	// the debug branches of Encoder.WritePacket and Decoder.readPacket
+	Log      bool   `json:"log,omitempty"`
 	Chunking string `json:"chunking"` // name, see chunkings()
 	Sizes    []int  `json:"sizes,omitempty"`
 	Cycle    []int  `json:"cycle,omitempty"`
@@ -131,6 +146,9 @@ func (c *caseSpec) String() string {
 	var ss []string
 	for _, s := range c.Steps {
 		x := fmt.Sprintf("%s%d", s.Content, s.Size)
+		if s.Via != "" {
+			x = s.Via + ":" + x
+		}
 		if s.SetThreshold != nil {
 			x = fmt.Sprintf("[thr:=%d]", *s.SetThreshold) + x
 		}
@@ -149,6 +167,9 @@ func (c *caseSpec) String() string {
 	}
 	if c.Via != "" {
 		fl += " via-WritePacket"
+	}
+	if c.Log {
+		fl += " logging-on"
 	}
 	return fmt.Sprintf("%s thr=%d lvl=%d %s%s payloads=[%s] chunking=%s", c.Dir, c.Threshold, c.Level, enc, fl, strings.Join(ss, ","), c.Chunking)
 }
@@ -196,12 +217,83 @@ func (b *blobPacket) Decode(_ *proto.PacketContext, rd io.Reader) (err error) {
 	return err
 }
 
-const blobID = 0x55
+const (
+	blobID = 0x55
+	lazyID = 0x56
+	failID = 0x57
+)
+
+// lazyPacket reads at most two bytes of its data: whenever there is more, the decoder reports
+// proto.ErrDecoderLeftBytes together with the context, and netmc's reader hands the packet on regardless.
+type lazyPacket struct{ Data []byte }
+
+func (b *lazyPacket) Encode(_ *proto.PacketContext, wr io.Writer) error {
+	_, err := wr.Write(b.Data)
+	return err
+}
+func (b *lazyPacket) Decode(_ *proto.PacketContext, rd io.Reader) error {
+	b.Data = make([]byte, 2)
+	n, err := io.ReadFull(rd, b.Data)
+	b.Data = b.Data[:n]
+	if err == io.EOF || err == io.ErrUnexpectedEOF {
+		err = nil
+	}
+	return err
+}
+
+// failPacket writes half of its data into the encode buffer and then fails.
+type failPacket struct {
+	Data  []byte
+	Panic bool
+}
+
+var errEncode = errors.New("harness: packet refuses to encode")
+
+func (b *failPacket) Encode(_ *proto.PacketContext, wr io.Writer) error {
+	_, _ = wr.Write(b.Data[:(len(b.Data)+1)/2])
+	if b.Panic {
+		panic("harness: packet encoder panics")
+	}
+	return errEncode
+}
+func (b *failPacket) Decode(_ *proto.PacketContext, rd io.Reader) (err error) {
+	b.Data, err = io.ReadAll(rd)
+	return err
+}
+
+// strangerPacket is not registered.
+type strangerPacket struct{ blobPacket }
+
+func (s step) via(cs *caseSpec) string {
+	switch {
+	case s.Via != "":
+		return s.Via
+	case cs.Via == "packet":
+		return "packet"
+	}
+	return "write"
+}
+
+// writesNothing: the step's write call fails by construction.
+func (s step) writesNothing() bool {
+	return s.Via == "fail-error" || s.Via == "fail-panic" || s.Via == "unregistered"
+}
+
+func caseLogger(cs *caseSpec) logr.Logger {
+	if !cs.Log {
+		return logr.Discard()
+	}
+	return funcr.New(func(prefix, args string) {}, funcr.Options{Verbosity: 10})
+}
 
 var harnessRegistry = func() *state.Registry {
 	reg := state.NewRegistry(states.HandshakeState)
 	reg.ServerBound.Register(&blobPacket{}, &state.PacketMapping{ID: blobID, Protocol: version.MinimumVersion.Protocol})
 	reg.ClientBound.Register(&blobPacket{}, &state.PacketMapping{ID: blobID, Protocol: version.MinimumVersion.Protocol})
+	reg.ServerBound.Register(&lazyPacket{}, &state.PacketMapping{ID: lazyID, Protocol: version.MinimumVersion.Protocol})
+	reg.ClientBound.Register(&lazyPacket{}, &state.PacketMapping{ID: lazyID, Protocol: version.MinimumVersion.Protocol})
+	reg.ServerBound.Register(&failPacket{}, &state.PacketMapping{ID: failID, Protocol: version.MinimumVersion.Protocol})
+	reg.ClientBound.Register(&failPacket{}, &state.PacketMapping{ID: failID, Protocol: version.MinimumVersion.Protocol})
 	return reg
 }()
 
@@ -216,7 +308,7 @@ type written struct {
 // encode runs the real writer over the steps.
 func encode(cs *caseSpec) (w written) {
 	conn := &recConn{}
-	wr := netmc.NewWriter(conn, dirOf(cs.Dir), time.Second, cs.Level, logr.Discard())
+	wr := netmc.NewWriter(conn, dirOf(cs.Dir), time.Second, cs.Level, caseLogger(cs))
 	wr.SetState(harnessRegistry)
 	if cs.Secret != "" {
 		sec, _ := hex.DecodeString(cs.Secret)
@@ -247,13 +339,23 @@ func encode(cs *caseSpec) (w written) {
 		}
 		p := payload(st.Size, st.Content)
 		var err error
-		if cs.Via == "packet" {
+		switch st.via(cs) {
+		case "packet":
 			p[0] = blobID
 			_, err = wr.WritePacket(&blobPacket{Data: p[1:]})
-		} else {
+		case "lazy":
+			p[0] = lazyID
+			_, err = wr.WritePacket(&lazyPacket{Data: p[1:]})
+		case "fail-error", "fail-panic":
+			// a panic that escapes WritePacket is the caller's to survive (the proxy recovers around its
+			// handlers); the statement is about what the following writes put on the wire
+			_, _ = vrt.Catch(func() { _, err = wr.WritePacket(&failPacket{Data: p[1:], Panic: st.Via == "fail-panic"}) })
+		case "unregistered":
+			_, err = wr.WritePacket(&strangerPacket{blobPacket{Data: p[1:]}})
+		default:
 			_, err = wr.Write(p)
 		}
-		if err != nil {
+		if err != nil && !st.writesNothing() {
 			w.err, w.errAt = err, i
 			return
 		}
@@ -263,7 +365,9 @@ func encode(cs *caseSpec) (w written) {
 				return
 			}
 		}
-		w.payloads = append(w.payloads, p)
+		if !st.writesNothing() {
+			w.payloads = append(w.payloads, p)
+		}
 		if !cs.FlushAtEnd {
 			w.ends = append(w.ends, conn.buf.Len())
 		}
@@ -284,7 +388,7 @@ type readBack struct {
 // same number of received payloads as on the writing side.
 func decode(cs *caseSpec, w *written, sizes, cycle []int) (rb readBack) {
 	conn := &chunkConn{data: w.stream, sizes: sizes, cycle: cycle}
-	rd := netmc.NewReader(conn, dirOf(cs.Dir), time.Second, logr.Discard())
+	rd := netmc.NewReader(conn, dirOf(cs.Dir), time.Second, caseLogger(cs))
 	rd.SetState(harnessRegistry)
 	rb.panicked, rb.panicVal = vrt.Catch(func() {
 		if cs.Secret != "" {
@@ -314,7 +418,7 @@ func decode(cs *caseSpec, w *written, sizes, cycle []int) (rb readBack) {
 					}
 				}
 				next++
-				if st.Size > 0 {
+				if st.Size > 0 && !st.writesNothing() {
 					return
 				}
 			}
@@ -328,6 +432,10 @@ func decode(cs *caseSpec, w *written, sizes, cycle []int) (rb readBack) {
 			}
 			if err != nil {
 				rb.err = err
+				return
+			}
+			if ctx == nil {
+				rb.err = errors.New("harness: ReadPacket returned neither a packet nor an error")
 				return
 			}
 			rb.payloads = append(rb.payloads, ctx.Payload)
@@ -503,7 +611,11 @@ func (c *checker) classify(cs *caseSpec, w *written) {
 		if st.Encrypt != "" {
 			r.Class("switch:encryption-enabled-mid-stream")
 		}
+		if st.Via != "" {
+			r.Class("step:via " + st.Via)
+		}
 		switch {
+		case st.writesNothing():
 		case st.Size == 0:
 			r.Class("payload:empty")
 		case thr < 0:
@@ -526,8 +638,13 @@ func (c *checker) classify(cs *caseSpec, w *written) {
 	if cs.FlushAtEnd {
 		r.Class("writer:flush-at-end")
 	}
+	if cs.Log {
+		r.Class("writer+reader:logging enabled (V10)")
+	}
 	if cs.Via == "packet" {
 		r.Class("writer:via WritePacket (registry + pooled buffers)")
+	} else if len(cs.Steps) > 0 && cs.Steps[0].Via != "" {
+		r.Class("writer:entry point chosen per payload")
 	} else {
 		r.Class("writer:via Write(payload)")
 	}
